@@ -923,6 +923,33 @@ func checkPolicyToNode(p *Prog, r *Report) {
 			}
 		}
 		r.Check(usesP2N && usesToEval, rule, "eval.Compile", p.pos(cf.Pos()), "Compile = ToEval(PolicyToNode(fold(p)))", "eval.Compile no longer builds its evaluator from PolicyToNode via ToEval")
+		// the policy handed to PolicyToNode is the folder's result for the given policy and nothing else
+		chainOK := false
+		var others []string
+		for _, c := range callsIn(cf) {
+			call, ok := c.(*ssa.Call)
+			if !ok {
+				continue
+			}
+			g := call.Call.StaticCallee()
+			if g == nil {
+				continue
+			}
+			if g == fn {
+				if inner, ok := call.Call.Args[0].(*ssa.Call); ok && inner.Call.StaticCallee() != nil && inner.Call.StaticCallee().Name() == "foldPolicy" && inner.Call.Args[0] == ssa.Value(cf.Params[0]) {
+					chainOK = true
+				}
+				continue
+			}
+			switch g.Name() {
+			case "foldPolicy", "ToEval", "AsIsNode":
+			default:
+				if fnPkgPath(g) == pEval {
+					others = append(others, g.Name())
+				}
+			}
+		}
+		r.Check(chainOK && len(others) == 0, rule, "eval.Compile:chain", p.pos(cf.Pos()), "the compiled form is exactly fold -> conjunction -> evaluator", "eval.Compile transforms the policy by something other than foldPolicy before building the conjunction ("+strings.Join(others, ",")+"): any extra rewriting of conditions changes which policies are satisfied")
 	} else {
 		r.Anchor(rule, "eval.Compile")
 	}
